@@ -136,6 +136,10 @@ def build(prop, tier="quick"):
     t.complete = True
     kb.targets.append(t)
     kb.static_facts.append(callsite_fact(ph))
+    if tier == "thorough":
+        rc, cases, err = _run_probe()
+        kb.static_facts.append(("native battery (thorough tier): probe_literals.cpp - 700 integer literals typed and valued per the C++ table on the real engine",
+                                rc == 0 and not cases, (err.strip() + " " + str(cases[:3]))[:400]))
     kb.assumptions += [
         "std::stoll / std::stoull: assumed contracts per [string.conversions] over a ghost 128-bit true value of the digit run "
         "(return it if representable in the result type, otherwise throw std::out_of_range); the digit run is not empty (the lexers guarantee a digit)",
